@@ -186,3 +186,38 @@ def _objproj(o):
     if n == "Element":
         return {"Z": o.atomic_number}
     return {k: v for k, v in vars(o).items() if not callable(v)}
+
+
+def image_separation(ops, frac, M=None):
+    """
+    smallest non-zero separation between any two symmetry images (periodic) of the given sites:
+    in fractional units (Euclidean norm of the fractional difference) if M is None, else in Angstrom.
+    Exactly coinciding images (special positions) are ignored (< 1e-9).
+    """
+    from scipy.spatial import cKDTree
+
+    pts = []
+    for (R, t) in ops:
+        Rm = np.array(R, dtype=float).reshape(3, 3)
+        pts.append(np.mod(np.asarray(frac, dtype=float) @ Rm.T + np.array(t, dtype=float) / 12.0, 1.0))
+    P = np.vstack(pts)
+    P[P >= 1.0] = 0.0
+    best = np.inf
+    if M is None:
+        tree = cKDTree(P, boxsize=1.0 + 1e-15)
+        d, _ = tree.query(P, k=min(len(P), 1 + 4 * len(ops)))
+        d = np.atleast_2d(d)
+        nz = d[d > 1e-9]
+        return float(nz.min()) if nz.size else np.inf
+    import itertools as it
+
+    C0 = P @ M
+    tree = cKDTree(C0)
+    for cell in it.product((-1, 0, 1), repeat=3):
+        C1 = (P + np.array(cell)) @ M
+        d, _ = tree.query(C1, k=min(len(P), 1 + 4 * len(ops)))
+        d = np.atleast_2d(d)
+        nz = d[d > 1e-9]
+        if nz.size:
+            best = min(best, float(nz.min()))
+    return best
